@@ -106,14 +106,14 @@ def _on_alarm(signum, frame):
     raise _Alarm()
 
 
-def compile_source(src, argv=(), name="p", codegen=True, timeout=30, phases=None):
+def compile_source(src, argv=(), name="p", codegen=True, timeout=20, phases=None):
     """Run load_commandline_flags -> load_source -> parse -> ParseCtx -> DfaCompileCtx -> CodegenCtx.
 
     argv: the option words (the file name `<name>.nmfu` is appended).  Returns an Outcome.
     """
     phase = "args"
     old = signal.signal(signal.SIGALRM, _on_alarm)
-    signal.alarm(timeout)
+    outer_left = signal.alarm(timeout)   # an enclosing per-item alarm (framework.pmap) is re-armed afterwards
     try:
         try:
             _, pname = N.ProgramData.load_commandline_flags([*argv, name + ".nmfu"])
@@ -159,6 +159,8 @@ def compile_source(src, argv=(), name="p", codegen=True, timeout=30, phases=None
     finally:
         signal.alarm(0)
         signal.signal(signal.SIGALRM, old)
+        if outer_left:
+            signal.alarm(outer_left)
 
 
 def corpus_files():
